@@ -124,8 +124,9 @@ where
 
         let payload_offset = FlexVec::<T, L>::OFFSET_SIZE;
         if payload_offset > next_offset {
+            // The next offset slot would overlap this one: no further input can repair that.
             return Some(Err(Error {
-                kind: ErrorKind::InsufficientSize,
+                kind: ErrorKind::InvalidData,
                 pos: self.pos + payload_offset,
             }));
         }
@@ -327,7 +328,23 @@ where
         loop {
             let payload_pos = iter.pos + Self::OFFSET_SIZE;
             match iter.next() {
-                Some(item_bytes) => T::validate(item_bytes?).map_err(|e| e.offset(payload_pos))?,
+                Some(item_bytes) => {
+                    let item_bytes = item_bytes?;
+                    // An item that is followed by another offset slot is sealed: its room is fixed.
+                    let sealed = iter.data.is_some();
+                    T::validate(item_bytes).map_err(|e| {
+                        let e = e.offset(payload_pos);
+                        if sealed && e.kind == ErrorKind::InsufficientSize {
+                            // More input cannot make a sealed item fit, so this is not "incomplete" but malformed.
+                            Error {
+                                kind: ErrorKind::InvalidData,
+                                ..e
+                            }
+                        } else {
+                            e
+                        }
+                    })?
+                }
                 None => break Ok(()),
             }
         }
